@@ -108,6 +108,18 @@ fn web_trailers_frame_len_10() {
 }
 
 #[kani::proof]
+#[kani::unwind(7)]
+#[kani::stub(alloc::fmt::format, fmt_stub)]
+fn web_find_trailers_24() {
+    find_trailers_case::<24>()
+}
+#[kani::proof]
+#[kani::unwind(10)]
+#[kani::stub(alloc::fmt::format, fmt_stub)]
+fn web_find_trailers_40() {
+    find_trailers_case::<40>()
+}
+#[kani::proof]
 #[kani::unwind(6)]
 #[kani::stub(alloc::fmt::format, fmt_stub)]
 fn web_find_trailers_17() {
@@ -264,7 +276,24 @@ fn any_bev() -> BEv {
     }
 }
 
+/// stands in for decode_trailers_frame inside the client-loop harness (the real one is decided by web_decode_trailers_*):
+/// checks that the loop hands it exactly one COMPLETE trailers frame, then returns an empty trailer map
+static mut DTF_CALLS: u32 = 0;
+fn decode_trailers_stub(buf: Bytes) -> Result<Option<HeaderMap>, Status> {
+    unsafe {
+        DTF_CALLS += 1;
+    }
+    let b: &[u8] = buf.as_ref();
+    assert!(b.len() >= 5 && b[0] == 0x80, "C17: something that is not a trailers frame was parsed as trailers");
+    let (_, l) = ref_frame_header(b).unwrap();
+    assert!(b.len() == 5 + l, "C17: the trailers frame was parsed before all of it had arrived (or with bytes that follow it)");
+    Ok(Some(HeaderMap::new()))
+}
+
 fn client_step<const N: usize, const K: usize>() {
+    unsafe {
+        DTF_CALLS = 0;
+    }
     let pre: [u8; N] = kani::any();
     let mut ev = [BEv::Pending; K];
     let mut i = 0;
@@ -278,7 +307,7 @@ fn client_step<const N: usize, const K: usize>() {
     let r = unsafe { Pin::new_unchecked(&mut call) }.poll_frame(&mut cx);
 
     // everything received so far = pre ++ data chunks consumed from the script
-    let mut all = [0u8; 16];
+    let mut all = [0u8; 12];
     let mut n = 0;
     i = 0;
     while i < N {
@@ -361,32 +390,37 @@ fn client_step<const N: usize, const K: usize>() {
 }
 
 #[kani::proof]
-#[kani::unwind(18)]
+#[kani::unwind(13)]
 #[kani::stub(alloc::fmt::format, fmt_stub)]
+#[kani::stub(decode_trailers_frame, decode_trailers_stub)]
 fn web_client_step_n0_k1() {
     client_step::<0, 1>()
 }
 #[kani::proof]
-#[kani::unwind(18)]
+#[kani::unwind(13)]
 #[kani::stub(alloc::fmt::format, fmt_stub)]
+#[kani::stub(decode_trailers_frame, decode_trailers_stub)]
 fn web_client_step_n3_k1() {
     client_step::<3, 1>()
 }
 #[kani::proof]
-#[kani::unwind(18)]
+#[kani::unwind(13)]
 #[kani::stub(alloc::fmt::format, fmt_stub)]
+#[kani::stub(decode_trailers_frame, decode_trailers_stub)]
 fn web_client_step_n6_k1() {
     client_step::<6, 1>()
 }
 #[kani::proof]
-#[kani::unwind(18)]
+#[kani::unwind(13)]
 #[kani::stub(alloc::fmt::format, fmt_stub)]
+#[kani::stub(decode_trailers_frame, decode_trailers_stub)]
 fn web_client_step_n4_k2() {
     client_step::<4, 2>()
 }
 #[kani::proof]
-#[kani::unwind(18)]
+#[kani::unwind(13)]
 #[kani::stub(alloc::fmt::format, fmt_stub)]
+#[kani::stub(decode_trailers_frame, decode_trailers_stub)]
 fn web_client_step_n7_k2() {
     client_step::<7, 2>()
 }
